@@ -247,8 +247,106 @@ class Documents(SubCheck):
                 % (case["doc"], ", ".join("%s=%r" % (k, v) for k, v in case["cfg"].items() if k in ("reify", "ppi"))))
 
 
+SEQ_DOCS = None
+
+
+def seq_docs():
+    """a small alphabet of documents that exercise every stateful part of the parser (viewport stack, use expansion and
+    its id bookkeeping, style sheets, display:none, errors that abort an element), for parse histories"""
+    global SEQ_DOCS
+    if SEQ_DOCS is None:
+        L = dict(LEAVES)
+        docs = []
+        for root, chain, leaf in [
+                (0, (), "rect"), (1, ("g-translate",), "rect-pct"), (3, ("svg-vb",), "circle"), (5, ("svg-pct", "g-rotate"), "rect-pct"),
+                (4, ("use",), "rect-units"), (6, ("use-xy-tf", "g-scale"), "circle"), (2, ("svg-vb-none", "use"), "rect"),
+                (1, ("defs",), "rect"), (1, ("display-none",), "rect"), (3, ("svg-bare", "svg-novb"), "rect-pct"),
+                (7, ("svg-par-novb", "svg-vb"), "rect"), (0, ("use", "use-xy-tf"), "rect-tf")]:
+            docs.append(build_doc(ROOTS[root][1], chain, L[leaf]))
+        head = '<svg xmlns="http://www.w3.org/2000/svg" xmlns:xlink="http://www.w3.org/1999/xlink" width="80" height="60" viewBox="0 0 40 30">'
+        docs += [
+            head + '<style>rect{fill:red} #a{stroke:blue} .k{stroke-width:3}</style><rect id="a" class="k" width="3" height="4"/><circle id="b" r="2"/></svg>',
+            head + '<path id="bad" d="M0,0 L5,5 Q"/><rect id="after" x="10%" y="10%" width="50%" height="50%"/></svg>',
+            head + '<use id="u" xlink:href="#u" x="3"/><g id="g"><use id="v" xlink:href="#g"/></g><rect id="after" width="2" height="1"/></svg>',
+            head + '<svg id="n" width="abc" height="10" viewBox="0 0 5 5"><rect id="in" width="1" height="1"/></svg><rect id="after" x="25%" width="2" height="1"/></svg>',
+            head + '<g transform="rotate(x)"><rect id="in" width="1" height="1"/></g><circle id="after" cx="50%" cy="50%" r="1"/></svg>',
+            head + '<defs><g id="dg" fill="green"><rect id="dr" width="4" height="3"/></g></defs><use id="u1" href="#dg" x="5"/><use id="u2" href="#dr" y="7" transform="scale(2)"/></svg>',
+        ]
+        SEQ_DOCS = docs
+    return SEQ_DOCS
+
+
+def observe_doc(svg, doc, **kw):
+    d = svg.SVG.parse(io.StringIO(doc), **kw)
+    res = []
+    for s in dc.lib_shapes(svg, d):
+        try:
+            g = dc.lib_geometry(svg, s)
+        except Exception as e:  # noqa
+            g = "geometry raised %s" % type(e).__name__
+        res.append((type(s).__name__, s.id, repr(g), dc.color_tuple(s.fill), dc.color_tuple(s.stroke)))
+    return res
+
+
+class Sequels(SubCheck):
+    """parse histories of length 2: SVG.parse(A) then SVG.parse(B) for every ordered pair of the document alphabet and
+    both reify settings; B's shapes must be exactly what B gives after a neutral first document (nothing may survive a
+    parse outside the tree it returned)"""
+    name = "sequels"
+
+    def __init__(self, svg, tier):
+        self.svg = svg
+        n = len(seq_docs())
+        self.space = Product(range(n), range(n), [True, False])
+        self.bounds = dict(documents=n, history=2)
+
+    def size(self):
+        return len(self.space)
+
+    def case(self, i):
+        a, b, reify = self.space[i]
+        return dict(first=a, second=b, reify=reify)
+
+    def run(self, case):
+        out = Outcome()
+        svg = self.svg
+        docs = seq_docs()
+        A, B = docs[case["first"]], docs[case["second"]]
+        kw = dict(reify=case["reify"])
+        neutral = '<svg xmlns="http://www.w3.org/2000/svg"><rect width="1" height="1"/></svg>'
+        try:
+            observe_doc(svg, neutral, **kw)
+            base = observe_doc(svg, B, **kw)
+            try:
+                observe_doc(svg, A, **kw)
+            except Exception:  # noqa  (A's own outcome is C10's / the documents sub-check's business)
+                pass
+            got = observe_doc(svg, B, **kw)
+        except Exception as e:  # noqa
+            out.fail("SVG.parse raised %s in the history" % type(e).__name__, None, repr(e), kind="exception", first=case["first"],
+                     second=case["second"])
+            return out
+        out.transitions += 2
+        out.traces += 1
+        out.nontrivial.append((case["first"], case["second"], case["reify"]))
+        out.states.append((case["first"], len(got)))
+        out.outcome = (len(base), len(got))
+        if got != base:
+            k = next((i for i, (x, y) in enumerate(zip(got, base)) if x != y), min(len(got), len(base)))
+            out.fail("document #%d parses differently after an unrelated SVG.parse of document #%d (first difference at shape %d)"
+                     % (case["second"], case["first"], k), base[k] if k < len(base) else None, got[k] if k < len(got) else None,
+                     kind="sequel", first=case["first"], second=case["second"], reify=case["reify"])
+        return out
+
+    def unit_test(self, case):
+        docs = seq_docs()
+        return ("def test_replay():\n    import io\n    from svgelements import SVG, Shape, Path\n"
+                "    def obs(t):\n        return [(e.id, abs(Path(e)).d()) for e in SVG.parse(io.StringIO(t)).elements() if isinstance(e, Shape)]\n"
+                "    A = %r\n    B = %r\n    base = obs(B); obs(A); assert obs(B) == base\n" % (docs[case["first"]], docs[case["second"]]))
+
+
 def build(tier, seed, svg):
-    return [Documents(svg, tier)]
+    return [Documents(svg, tier), Sequels(svg, tier)]
 
 
 MATCHERS = {}
